@@ -37,10 +37,11 @@ def cases(tier, seed):
 
 def requirements(tier):
     return {"min_counters": {"constructions_tried": 350, "assignments_tried": 330, "grouped_tried": 330, "state_comparisons": 600,
-                             "classes_enumerated": 4 * 18, "owned_value_refused": 100},
+                             "classes_enumerated": 4 * 18, "owned_value_refused": 100, "list_operations_tried": 80},
             "required_classes": ["kind_wrong_dimension", "kind_negative", "kind_bare_number", "kind_string_object", "kind_hourly_for_scalar",
                                  "kind_scalar_for_hourly", "kind_outside_list", "kind_wrong_class_element", "kind_non_list", "kind_wrong_class_link",
-                                 "kind_forbidden_by_server_type", "kind_owned_by_another_object"]}
+                                 "kind_forbidden_by_server_type", "kind_owned_by_another_object", "kind_wrong_class_via_insert", "kind_wrong_class_via_append",
+                                 "kind_wrong_class_via_extend", "kind_wrong_class_via_iadd", "kind_wrong_class_via_setitem"]}
 
 
 def invalid_values(E, cls, pname, kind_of_param, vs, objs, obj_params):
@@ -73,6 +74,20 @@ def invalid_values(E, cls, pname, kind_of_param, vs, objs, obj_params):
         cur = list(getattr(objs.get("_owner"), pname)) if objs.get("_owner") is not None else []
         out.append(("wrong_class_element", [wrong]))
         out.append(("non_list", wrong))
+        # the same wrong-class element handed to every list-mutating operation of the attached list (assignment context only)
+        import inspect, typing
+        elem_cls = typing.get_args(inspect.signature(cls.__init__).parameters[pname].annotation)[0]
+        seen = set()
+        for n2, o2 in objs.items():
+            raw = getattr(o2, "_value", o2)
+            tn = type(raw).__name__
+            if n2.startswith("_") or tn in seen or tn not in ("Network", "Server", "Storage", "Device", "Job", "UsageJourneyStep", "UsageJourney", "Country"):
+                continue
+            if issubclass(type(raw), elem_cls):
+                continue
+            seen.add(tn)
+            for m in ("append", "insert", "extend", "iadd", "setitem"):
+                out.append((f"wrong_class_via_{m}", ListOp(m, o2, tn)))
     elif kind_of_param == "ref":
         import inspect
         ann = inspect.signature(cls.__init__).parameters[pname].annotation
@@ -87,6 +102,21 @@ def invalid_values(E, cls, pname, kind_of_param, vs, objs, obj_params):
 
 
 OPTIONAL_REFUSAL = ("owned_by_another_object",)
+
+
+class ListOp:
+    """an invalid value that is not assigned but handed to a list-mutating operation of the attached list"""
+    def __init__(self, method, element, element_class):
+        self.method, self.element, self.element_class = method, element, element_class
+
+    def run(self, owner, pname):
+        lst = getattr(owner, pname)
+        if self.method == "append": lst.append(self.element)
+        elif self.method == "insert": lst.insert(0, self.element)
+        elif self.method == "extend": lst.extend([self.element])
+        elif self.method == "iadd":
+            lst += [self.element]; setattr(owner, pname, lst)
+        elif self.method == "setitem": lst[0] = self.element
 
 
 def owned_values(E, spec, objs, target, pname, kind_of_param):
@@ -132,7 +162,7 @@ def run_case(case):
     spec = system_for(case, rnd)
     h = Hist(rnd, case["tier"], spec=spec, id_seed=case["seed"] * 100 + case.get("sys", 0))
     C = {k: 0 for k in ("constructions_tried", "assignments_tried", "grouped_tried", "state_comparisons", "refused", "classes_enumerated",
-                        "known_F19", "build_failed", "optional_refusal_accepted", "owned_value_refused")}
+                        "known_F19", "build_failed", "optional_refusal_accepted", "owned_value_refused", "list_operations_tried")}
     classes = set()
     if h.build_error:
         return {"counters": dict(C, build_failed=1), "classes": [], "violations": [{"kind": "the all-classes model failed to build", "error": h.build_error}]}
@@ -156,6 +186,10 @@ def run_case(case):
         for label, bad in invalid_values(E, cls, pname, kind_of_param, P[pname], objs, P) + owned_values(E, h.spec, objs, target, pname, kind_of_param):
             classes.add("kind_" + label)
             ident = {"class": case["cls"], "parameter": pname, "invalid_kind": label, "context": case["ctx"]}
+            if isinstance(bad, ListOp):
+                if case["ctx"] != "assignment" or not len(getattr(objs[target], pname)):
+                    continue
+                ident["element_class"] = bad.element_class
             done.append((pname, label))
             if case["ctx"] == "construction":
                 C["constructions_tried"] += 1
@@ -178,7 +212,11 @@ def run_case(case):
             try:
                 if case["ctx"] == "assignment":
                     C["assignments_tried"] += 1
-                    setattr(objs[target], pname, bad)
+                    if isinstance(bad, ListOp):
+                        C["list_operations_tried"] += 1
+                        bad.run(objs[target], pname)
+                    else:
+                        setattr(objs[target], pname, bad)
                 else:
                     C["grouped_tried"] += 1
                     # a valid change first (it must not stick either), then the invalid one
@@ -200,6 +238,10 @@ def run_case(case):
             C["state_comparisons"] += 1
             obs1 = observe.full_state(sysm, identity=True)
             d = observe.state_diff(obs0, obs1)
+            if isinstance(bad, ListOp):
+                # every list operation, refused or not, starts by handing the attribute over to a new list object (the library never
+                # keeps a list object across operations): content, container and everything else must be unchanged, its identity is not claimed
+                d = [k for k in d if not (obs0.get(k) and obs1.get(k) and obs0[k][0] == "list" and obs0[k][2:] == obs1[k][2:])]
             if not raised and label in OPTIONAL_REFUSAL:
                 C["optional_refusal_accepted"] += 1
             elif not raised:
